@@ -331,7 +331,65 @@ func DrawVals(t *rapid.T, b *Binding, o Opts) *ref.Vals {
 			}
 		}
 	}
+	if rapid.IntRange(0, 5).Draw(t, "coherent") == 0 {
+		coherentSegment(t, s, v, o)
+	}
 	return v
+}
+
+// coherentSegment turns a submit/deliver value into what real traffic looks like for one part of a
+// concatenated message: the body starts with a concatenation header and the user-data-header flag and
+// the part counters take one of the combinations peers actually send (set and consistent, left at 0/0
+// or 1/1 by a sender that does not fill them, flag forgotten). Independent draws would practically
+// never produce these combinations.
+func coherentSegment(t *rapid.T, s *ref.PDUSpec, v *ref.Vals, o Opts) {
+	var bodyName, lenName string
+	for _, f := range s.Fields {
+		if f.Kind == ref.Body {
+			bodyName = f.Name
+			lenName = ref.CountFieldFor(s, f.Name)
+		}
+	}
+	if bodyName == "" {
+		return
+	}
+	total := uint64(rapid.IntRange(2, 6).Draw(t, "segtotal"))
+	seq := uint64(rapid.IntRange(1, int(total)).Draw(t, "segseq"))
+	body := append([]byte{}, v.B(bodyName)...)
+	var hdr []byte
+	if rapid.IntRange(0, 3).Draw(t, "hdr16") == 0 {
+		hdr = []byte{6, 8, 4, 0x12, 0x34, byte(total), byte(seq)}
+	} else {
+		hdr = []byte{5, 0, 3, 0x2a, byte(total), byte(seq)}
+	}
+	if len(body) < len(hdr)+1 {
+		body = append(append([]byte{}, hdr...), 'x')
+	} else {
+		copy(body, hdr)
+	}
+	if len(body) > 255 {
+		body = body[:255]
+	}
+	v.F[bodyName] = body
+	v.F[lenName] = uint64(len(body))
+	flag := uint64(rapid.SampledFrom([]int{1, 1, 1, 0}).Draw(t, "udhi"))
+	counters := [][2]uint64{{total, seq}, {0, 0}, {1, 1}, {0, 1}, {1, 0}, {total, 0}}[rapid.IntRange(0, 5).Draw(t, "counters")]
+	for _, f := range s.Fields {
+		switch f.Name {
+		case "TpUDHI", "TpUdhi":
+			v.F[f.Name] = flag
+		case "ESMClass":
+			v.F[f.Name] = flag << 6
+		case "PkTotal":
+			v.F[f.Name] = counters[0]
+		case "PkNumber":
+			v.F[f.Name] = counters[1]
+		}
+		if f.Kind == ref.OptTail && !o.NoTails && (o.MaxTriplets == 0 || o.MaxTriplets >= 3) && rapid.Bool().Draw(t, "segopts") {
+			// SMGP carries the flag and the counters as optional parameters TP_udhi (2), PkTotal (9), PkNumber (10)
+			v.F[f.Name] = []ref.Triplet{{Tag: 2, Val: []byte{byte(flag)}}, {Tag: 9, Val: []byte{byte(counters[0])}}, {Tag: 10, Val: []byte{byte(counters[1])}}}
+		}
+	}
 }
 
 func fieldByName(s *ref.PDUSpec, n string) ref.Field {
